@@ -17,6 +17,7 @@ package vrt
 
 import (
 	"fmt"
+	"runtime"
 	"sync"
 )
 
@@ -29,17 +30,18 @@ func (a *Abort) Error() string { return "vrt: execution aborted: " + a.Reason }
 
 // Verdict summarises one execution.
 type Verdict struct {
-	Ticks      int64
-	Exhausted  bool     // fuel limit exceeded
-	Deadlock   bool     // main thread blocked and nothing enabled
-	Leaked     int      // threads still blocked after main returned and all others ran to quiescence
-	LeakSites  []string // what the leaked threads were blocked on
-	Threads    int      // threads created (excluding main)
-	Panic      any      // non-sentinel panic that escaped the body on the main thread
-	PanicStack string
-	Choices    []Choice // choice points taken, in order
-	Events     []string
-	Preempts   int
+	Ticks       int64
+	Exhausted   bool     // fuel limit exceeded
+	Deadlock    bool     // main thread blocked and nothing enabled
+	Leaked      int      // threads still blocked after main returned and all others ran to quiescence
+	LeakSites   []string // what the leaked threads were blocked on
+	Threads     int      // threads created (excluding main)
+	Panic       any      // non-sentinel panic that escaped the body on the main thread
+	PanicStack  string
+	Choices     []Choice // choice points taken, in order
+	Events      []string
+	Preempts    int
+	ExhaustSite string // function that consumed the last unit of fuel
 }
 
 // Choice is one recorded choice point.
@@ -282,6 +284,11 @@ func Tick() {
 	e.ticks++
 	if e.ticks > e.limit {
 		e.v.Exhausted = true
+		if pc, _, _, ok := runtime.Caller(1); ok {
+			if f := runtime.FuncForPC(pc); f != nil {
+				e.v.ExhaustSite = f.Name()
+			}
+		}
 		e.abortLocked("fuel exhausted")
 		e.mu.Unlock()
 		panic(&Abort{"fuel exhausted"})
